@@ -32,6 +32,20 @@ type Case struct {
 	Bits  uint64   `json:"bits"`
 }
 
+// sprintfNoPanic formats v and turns a panic that package fmt recovered from a Format or String
+// method ("%!v(PANIC=Format method: ...)") back into a panic, so that it is reported.
+func sprintfNoPanic(format string, v interface{}) string {
+	out := fmt.Sprintf(format, v)
+	if i := strings.Index(out, "(PANIC="); i >= 0 {
+		end := i + 300
+		if end > len(out) {
+			end = len(out)
+		}
+		panic("package fmt recovered a panic while formatting with " + format + ": " + out[i:end])
+	}
+	return out
+}
+
 type result struct {
 	decs     []*apd.Decimal // every Decimal returned or written
 	parsed   *apd.Decimal   // a successfully parsed Decimal (extra exponent checks)
@@ -144,7 +158,7 @@ func init() {
 	})
 	dm("Decompose", func(c Case, x *apd.Decimal) result { x.Decompose(make([]byte, 0, int(c.N&63))); x.Decompose(nil); return result{} })
 	dm("Float64", func(c Case, x *apd.Decimal) result { x.Float64(); return result{} })
-	dm("Format", func(c Case, x *apd.Decimal) result { _ = fmt.Sprintf(c.Fmt, x); return result{} })
+	dm("Format", func(c Case, x *apd.Decimal) result { sprintfNoPanic(c.Fmt, x); return result{} })
 	dm("Int64", func(c Case, x *apd.Decimal) result { x.Int64(); return result{} })
 	dm("IsZero", func(c Case, x *apd.Decimal) result { x.IsZero(); return result{} })
 	dm("MarshalText", func(c Case, x *apd.Decimal) result {
@@ -256,7 +270,7 @@ func init() {
 		b := bigOf(c)
 		_ = b.Text([]int{2, 10, 16, 36, 62}[uint64(c.N)%5])
 		_ = b.String()
-		_ = fmt.Sprintf(c.Fmt, b)
+		sprintfNoPanic(c.Fmt, b)
 		var n *apd.BigInt // the nil receiver is documented to print "<nil>" like math/big
 		_ = n.String()
 		_ = n.Text(10)
@@ -429,9 +443,15 @@ func genCase(t *rapid.T) Case {
 	w := ""
 	if rapid.Bool().Draw(t, "w") {
 		w = fmt.Sprint(rapid.IntRange(0, 60).Draw(t, "width"))
+		if gen.Pick(t, 6, "widew") == 0 { // beyond any fixed-size padding buffer
+			w = fmt.Sprint(rapid.IntRange(61, 5000).Draw(t, "widewidth"))
+		}
 	}
 	if gen.Pick(t, 4, "prec") == 0 {
 		w += "." + fmt.Sprint(rapid.IntRange(0, 20).Draw(t, "fprec"))
+		if gen.Pick(t, 6, "widep") == 0 {
+			w = strings.SplitN(w, ".", 2)[0] + "." + fmt.Sprint(rapid.IntRange(21, 3000).Draw(t, "wideprec"))
+		}
 	}
 	c.Fmt = "%" + flags + w + verb
 	if (verb == "f" || verb == "F") && (c.X.Exp > 3000 || c.X.Exp < -3000) {
